@@ -626,7 +626,7 @@ where
         let return_codes_size = return_codes_buf.len();
 
         let remaining = packet_id_size + return_codes_size;
-        let remaining_length = VariableByteInteger::from_u32(remaining as u32).unwrap();
+        let remaining_length = VariableByteInteger::from_len(remaining)?;
 
         Ok(GenericSuback {
             fixed_header: [FixedHeader::Suback as u8],
